@@ -5,9 +5,9 @@
    harness c02e, not proved. `reach` quantifies over every base database and every admissible
    operation sequence; admissibility contains the FORCE_WRITE admission rule of system.rs (only on a
    node not created in this transaction) and create_node freshness. *)
-From Coq Require Import List NArith Bool.
+From Coq Require Import List NArith Bool String.
 Import ListNotations.
-Require Import RV.Model.C12_Track RV.Model.C12_View RV.Model.C02_ResultType RV.Proof.C12_Main RV.Proof.C12_Updates RV.Proof.C02_Result.
+Require Import RV.Model.C12_Track RV.Model.C12_View RV.Model.C02_ResultType RV.Proof.C12_Main RV.Proof.C12_Updates RV.Proof.C02_Result RV.Model.C02_Finalize RV.Proof.C02_Shape RV.Gen.C02_force_write_sites.
 Open Scope N_scope.
 
 (* the three unwrap()s of revert_non_force_write_changes are unreachable *)
@@ -33,6 +33,53 @@ Theorem C02_revert_updates_only_force_writes : forall db t s t' n p k, db_wf db 
     match fw_get (v_fw s) n p k with Some x => x | None => al_get k (db n p) end
   /\ fst (to_state_updates t') = [].
 Proof. exact revert_updates_only_force_writes. Qed.
+
+(* the state diff of a failed commit, for every operation list and every fault position (any
+   reachable state t is a prefix of an admissible run cut at the fault), whatever the finalisation
+   writes: after the revert and any list `post` of reads / writes / partition deletions, committing
+   the final StateUpdates leaves every key of every non-deleted partition at its database value unless
+   the key was force-written before the fault or is written by `post`; no node is reported new; no
+   operation of `post` panics. *)
+Theorem C02_failure_diff_shape : forall db t s t1 post t2 outs n p k,
+  db_wf db -> reach db t s -> revert t = Some t1 -> Forall simple_op post ->
+  run db t1 post = (t2, outs) ->
+  (iset_mem (n, p) (t_del t2) = false -> fw_get (v_fw s) n p k = None -> ~ writes_key post n p k ->
+     apply_su (snd (to_state_updates t2)) db n p k = al_get k (db n p))
+  /\ fst (to_state_updates t2) = [] /\ List.length outs = List.length post.
+Proof. exact failure_diff_shape. Qed.
+
+(* the modelled finalize_fees_for_commit + update_transaction_tracker only read, write and drop
+   partitions, and write only: balances of royalty / fee-locking / validator-reward vaults, the
+   consensus manager's validator-rewards field, and substates of the transaction tracker *)
+Theorem C02_finalisation_write_set : forall w ro lo rw en di nf,
+  Forall simple_op (finalize_fee_ops w ro lo rw ++ tracker_ops w en di nf) /\
+  forall n p k, writes_key (finalize_fee_ops w ro lo rw ++ tracker_ops w en di nf) n p k ->
+                fee_or_tracker_key w ro lo rw n p k.
+Proof. intros. split; [apply finalisation_simple|apply finalisation_writes]. Qed.
+
+(* the static table of FORCE_WRITE sites, regenerated from /repo on every run: the flag is requested
+   in exactly one place (FungibleVault::lock_fee), consumed in close_substate, refused for key-value
+   entries and for every blueprint but the fungible vault (actor_open_field), and can otherwise only
+   arrive as caller-supplied bits through the two WASM entry points that lead to those checks. A new
+   site changes the generated table and breaks this obligation. *)
+Theorem C02_force_write_sites_pinned :
+  c02_lock_force_write_sites =
+  [ ("radix-engine/src/blueprints/resource/fungible/fungible_vault.rs", "lock_fee", "use");
+    ("radix-engine/src/kernel/substate_io.rs", "close_substate", "check");
+    ("radix-engine/src/system/system.rs", "key_value_store_open_entry", "check");
+    ("radix-engine/src/system/system.rs", "actor_open_field", "check");
+    ("radix-engine/src/system/system.rs", "actor_open_key_value_entry", "check");
+    ("radix-engine/src/vm/wasm_runtime/scrypto_runtime.rs", "key_value_store_open_entry", "caller_supplied_bits");
+    ("radix-engine/src/vm/wasm_runtime/scrypto_runtime.rs", "actor_open_field", "caller_supplied_bits") ]%string
+  /\
+  c02_event_force_write_sites =
+  [ ("radix-engine/src/system/system.rs", "start_lock_fee", "use");
+    ("radix-engine/src/system/system.rs", "lock_fee", "use");
+    ("radix-engine/src/system/system.rs", "actor_emit_event", "check");
+    ("radix-engine/src/system/system_modules/transaction_runtime/module.rs", "finalize", "check");
+    ("radix-engine/src/vm/wasm/wasmi.rs", "emit_event", "caller_supplied_bits");
+    ("radix-native-sdk/src/runtime/runtime.rs", "emit_event_no_revert", "use") ]%string.
+Proof. split; reflexivity. Qed.
 
 (* rejected and aborted transactions have no state-update component; a failure commits only when the
    loan was fully repaid and the error is not an abort; commits of failures go through revert *)
@@ -65,6 +112,9 @@ Proof. vm_compute. split; reflexivity. Qed.
 Print Assumptions C02_revert_no_panic.
 Print Assumptions C02_revert_keeps_only_force_writes.
 Print Assumptions C02_revert_updates_only_force_writes.
+Print Assumptions C02_failure_diff_shape.
+Print Assumptions C02_finalisation_write_set.
+Print Assumptions C02_force_write_sites_pinned.
 Print Assumptions C02_reject_abort_empty.
 Print Assumptions C02_commit_failure_iff.
 Print Assumptions C02_failure_receipt_reverts.
